@@ -51,9 +51,111 @@ pub fn d2() -> bool {
     removed != 0 || !b_alive
 }
 
+/// C07 (actor): a document open with write capability must stay writable when a read-only
+/// capability for the same document is imported through the store actor.
+pub fn c07a() -> bool {
+    use iroh_docs::actor::{OpenOpts, SyncHandle};
+    use iroh_docs::Capability;
+    let handle = SyncHandle::spawn(Store::memory(), None, "c07a".into());
+    let author = Author::from_bytes(&[7u8; 32]);
+    let namespace = NamespaceSecret::from_bytes(&[8u8; 32]);
+    let id = namespace.id();
+    let bad = block_on(async {
+        let author = handle.import_author(author).await.unwrap();
+        handle.import_namespace(Capability::Write(namespace.clone())).await.unwrap();
+        handle.open(id, OpenOpts::default()).await.unwrap();
+        let (h, l) = hash(b"v1");
+        handle.insert_local(id, author, "k1".into(), h, l).await.unwrap();
+        handle.import_namespace(Capability::Read(id)).await.unwrap();
+        let second = handle.insert_local(id, author, "k2".into(), h, l).await;
+        let secret = handle.export_secret_key(id).await;
+        eprintln!("c07a: insert after read import ok: {}; secret still exportable: {}", second.is_ok(), secret.is_ok());
+        let bad = second.is_err() || secret.is_err();
+        let _ = handle.shutdown().await;
+        bad
+    });
+    bad
+}
+
+/// D7: after removing a document and creating it again, nothing of the old document may be
+/// observable -- in particular no author heads.
+pub fn d7() -> bool {
+    let mut store = Store::memory();
+    let ns = NamespaceSecret::from_bytes(&[5u8; 32]);
+    let author = Author::from_bytes(&[6u8; 32]);
+    let id = ns.id();
+    {
+        let mut replica = store.new_replica(ns.clone()).unwrap();
+        let (h, l) = hash(b"x");
+        block_on(replica.insert(b"k", &author, h, l)).unwrap();
+    }
+    store.close_replica(id);
+    store.remove_replica(&id).unwrap();
+    let _ = store.new_replica(ns).unwrap();
+    store.close_replica(id);
+    let heads: Vec<_> = store.get_latest_for_each_author(id).unwrap().collect::<Result<Vec<_>, _>>().unwrap();
+    let entries = store.get_many(id, Query::all()).unwrap().count();
+    eprintln!("d7: after remove + re-create: {} entries, {} author heads", entries, heads.len());
+    !heads.is_empty() || entries != 0
+}
+
+/// D4: entries arriving in decreasing timestamp order (at unrelated keys) must not lower the
+/// author's reported head.
+pub fn d4() -> bool {
+    use iroh_docs::{Record, SignedEntry};
+    let mut store = Store::memory();
+    let ns = NamespaceSecret::from_bytes(&[9u8; 32]);
+    let author = Author::from_bytes(&[10u8; 32]);
+    let id = ns.id();
+    let mut replica = store.new_replica(ns.clone()).unwrap();
+    let now = std::time::SystemTime::now().duration_since(std::time::UNIX_EPOCH).unwrap().as_micros() as u64;
+    let (h, l) = hash(b"x");
+    let newer = SignedEntry::from_parts(&ns, &author, b"a", Record::new(h, l, now));
+    let older = SignedEntry::from_parts(&ns, &author, b"b", Record::new(h, l, now - 1000));
+    block_on(replica.insert_remote_entry(newer, [1u8; 32], iroh_docs::ContentStatus::Missing)).unwrap();
+    block_on(replica.insert_remote_entry(older, [1u8; 32], iroh_docs::ContentStatus::Missing)).unwrap();
+    drop(replica);
+    let heads: Vec<_> = store.get_latest_for_each_author(id).unwrap().collect::<Result<Vec<_>, _>>().unwrap();
+    let head = heads.first().map(|h| h.1).unwrap_or(0);
+    eprintln!("d4: newest entry {}, reported head {}", now, head);
+    head != now
+}
+
+/// D1: a newer deletion marker at a prefix (and a newer entry at the empty key) must block an
+/// older entry below it, whatever the arrival order.
+pub fn d1() -> bool {
+    use iroh_docs::{Record, SignedEntry};
+    let mut store = Store::memory();
+    let ns = NamespaceSecret::from_bytes(&[11u8; 32]);
+    let author = Author::from_bytes(&[12u8; 32]);
+    let id = ns.id();
+    let mut replica = store.new_replica(ns.clone()).unwrap();
+    let now = std::time::SystemTime::now().duration_since(std::time::UNIX_EPOCH).unwrap().as_micros() as u64;
+    let (h, l) = hash(b"x");
+    // newer deletion marker at "a", then an OLDER entry at "ab" arrives (e.g. from a peer that has not seen the deletion)
+    let tomb = SignedEntry::from_parts(&ns, &author, b"a", Record::empty(now));
+    let older = SignedEntry::from_parts(&ns, &author, b"ab", Record::new(h, l, now - 1000));
+    block_on(replica.insert_remote_entry(tomb, [1u8; 32], iroh_docs::ContentStatus::Missing)).unwrap();
+    let r1 = block_on(replica.insert_remote_entry(older, [1u8; 32], iroh_docs::ContentStatus::Missing));
+    // newer entry at the EMPTY key, then an older entry at "b"
+    let root = SignedEntry::from_parts(&ns, &author, b"", Record::new(h, l, now));
+    let older2 = SignedEntry::from_parts(&ns, &author, b"b", Record::new(h, l, now - 1000));
+    block_on(replica.insert_remote_entry(root, [1u8; 32], iroh_docs::ContentStatus::Missing)).unwrap();
+    let r2 = block_on(replica.insert_remote_entry(older2, [1u8; 32], iroh_docs::ContentStatus::Missing));
+    drop(replica);
+    let ab = store.get_exact(id, author.id(), b"ab", true).unwrap().is_some();
+    let b = store.get_exact(id, author.id(), b"b", true).unwrap().is_some();
+    eprintln!("d1: older entry under a newer deletion marker admitted: {} (stored: {ab}); older entry under a newer empty-key entry admitted: {} (stored: {b})", r1.is_ok(), r2.is_ok());
+    ab || b
+}
+
 pub fn run(id: &str) -> Option<bool> {
     Some(match id {
         "d2" => d2(),
+        "c07a" => c07a(),
+        "d7" => d7(),
+        "d4" => d4(),
+        "d1" => d1(),
         other => return iroh_docs::verif_incrate::witness::run(other),
     })
 }
